@@ -44,43 +44,45 @@ func Mix(vs ...uint64) uint64 {
 	return h
 }
 
-// Choice is one recorded decision.
-type Choice struct {
-	V int `json:"v"`
-	N int `json:"n"`
+// Choices is a recorded run: the draws that generate configuration, programs and faults (Gen) and the scheduler's picks
+// (Sched) are kept in two lists, so that deleting an operation while shrinking does not shift the schedule and vice versa.
+type Choices struct {
+	Gen   []int `json:"choices"`
+	Sched []int `json:"schedule"`
 }
+
+func (c Choices) Len() int { return len(c.Gen) + len(c.Sched) }
+
+// isSched tells which stream a draw belongs to.
+func isSched(label string) bool { return label == "stay" || label == "pick" }
 
 // Recorder wraps a source and records every decision.
 type Recorder struct {
-	In     Source
-	Log    []Choice
-	Labels []string // only filled when KeepLabels
-	Keep   bool
+	In  Source
+	Log Choices
 }
 
 func (r *Recorder) Intn(label string, n int) int {
 	v := r.In.Intn(label, n)
-	r.Log = append(r.Log, Choice{v, n})
-	if r.Keep {
-		r.Labels = append(r.Labels, label)
+	if isSched(label) {
+		r.Log.Sched = append(r.Log.Sched, v)
+	} else {
+		r.Log.Gen = append(r.Log.Gen, v)
 	}
 	return v
 }
 
-// Values returns the recorded values only.
-func (r *Recorder) Values() []int {
-	out := make([]int, len(r.Log))
-	for i, c := range r.Log {
-		out[i] = c.V
-	}
-	return out
+// Values returns a copy of the recorded choices.
+func (r *Recorder) Values() Choices {
+	return Choices{Gen: append([]int(nil), r.Log.Gen...), Sched: append([]int(nil), r.Log.Sched...)}
 }
 
-// Replay feeds back a recorded list. In strict mode an out-of-range or missing entry is an error (Err is set and 0
+// Replay feeds back recorded choices. In strict mode an out-of-range or missing entry is an error (Err is set and 0
 // returned from then on); in lenient mode (shrinking) values are reduced modulo n and missing entries are 0.
 type Replay struct {
-	Vals   []int
-	Pos    int
+	Vals   Choices
+	posG   int
+	posS   int
 	Strict bool
 	Err    error
 }
@@ -89,19 +91,23 @@ func (r *Replay) Intn(label string, n int) int {
 	if n < 1 {
 		n = 1
 	}
-	if r.Pos >= len(r.Vals) {
+	list, pos := r.Vals.Gen, &r.posG
+	if isSched(label) {
+		list, pos = r.Vals.Sched, &r.posS
+	}
+	if *pos >= len(list) {
 		if r.Strict && r.Err == nil {
-			r.Err = fmt.Errorf("replay exhausted at draw %d (%s)", r.Pos, label)
+			r.Err = fmt.Errorf("replay exhausted at draw %d (%s)", *pos, label)
 		}
-		r.Pos++
+		*pos++
 		return 0
 	}
-	v := r.Vals[r.Pos]
-	r.Pos++
+	v := list[*pos]
+	*pos++
 	if v < 0 || v >= n {
 		if r.Strict {
 			if r.Err == nil {
-				r.Err = fmt.Errorf("replay value %d out of range [0,%d) at draw %d (%s)", v, n, r.Pos-1, label)
+				r.Err = fmt.Errorf("replay value %d out of range [0,%d) at draw %d (%s)", v, n, *pos-1, label)
 			}
 			return 0
 		}
